@@ -404,7 +404,7 @@ def check_C12(ctx):
                    'writes is a model-level observation only). Cache histories are replayed per settings (hand-picked degenerate ones, '
                    'sampled 2x2 alphabet family, seeded random up to 3x3): cold cache, warm cache, and a cache directory written by another '
                    'interpreter with another hash seed. Time limits: the real limiter with 0.5 ms and 2 s, and a deterministic adversary in place '
-                   'of the limiter (every timed call expires / only the count / everything but lazy instantiation / everything but the enumerating candidates / none / random masks). '
+                   'of the limiter (every timed call expires / only the count / everything but lazy instantiation / everything but the enumerating candidates / everything but the k-th candidate for every k on the degenerate settings / none / random masks). '
                    'The selected manager\'s decode trace is validated as a working coding (C10 clauses, Mon_ConnCoding); warm = cold and '
                    'loaded-from-other-process = what that process reported are compared on encoder, variables and the whole decode '
                    'mapping; the matrix cache against a fresh computation; pairs of settings differing in one key field for key collisions',
